@@ -7,3 +7,5 @@ open OrxPar
 #print axioms C01_materialised_stage
 #print axioms C01_every_schedule
 #print axioms C01_collect_all_schedules
+#print axioms C01_partial_source_finding
+#print axioms C01_fresh_source_ok
